@@ -147,6 +147,58 @@ CHECKS = {
             "loop, App.run and random done/update interleavings for max_iter in {0,1,2,7,50}; "
             "the update hook checks the counter on every Alg object of the process.",
             "DESIGN.md section 4, C15"),
+    "C16": ("reference-model monitor: real Sense operator vs explicit multi-coil encoding "
+            "(explicit centred DFT / exact NDFT), adjoint identity, batching invariance over all "
+            "coil_batch_size values; reconstructions vs dense normal-equation solution or a "
+            "certified optimum of the documented objective",
+            "Operator cases (2-D/3-D, 1-6 coils, Cartesian / random / radial / out-of-range "
+            "coordinates, weights none / k-space / per-coil, time segmentation) compare forward, "
+            "adjoint and every batch size with the unbatched operator at 1e-12 and with the "
+            "explicit encoding; SenseRecon is compared with (A^H A + lamda I)^-1 A^H y from the "
+            "dense matrix of the real operator for every applicable solver, TotalVariationRecon "
+            "and L1WaveletRecon (Haar on power-of-two shapes, verified unitary) with a dense "
+            "ADMM optimum certified by a Fenchel duality gap.",
+            "DESIGN.md section 4, C16"),
+    "C17": ("postcondition monitor on the maps / eigenvalues returned by the real EspiritCalib; "
+            "recovery of band-limited synthetic maps in the well-posed regime; numba bounds-"
+            "check sanitizer on the block kernel; PowerMethod trace monitor",
+            "For random and synthesised k-space (2-D 8-24, 3-D 8-12, 2-8 coils, calibration "
+            "and kernel widths, thresholds, crop values, complex64/128) every voxel's coil "
+            "vector must have norm 0 or 1, zero exactly where the eigenvalue is <= crop, first "
+            "coil real non-negative, eigenvalues in [0, 1]; maps synthesised with k-space "
+            "support 3 are recovered to 1e-3 (4e-2 at thresh 0.02) where the calibration is "
+            "well posed.",
+            "DESIGN.md section 4, C17"),
+    "C18": ("contract monitor on poisson(): kernel-call counter on the module-global _poisson "
+            "(termination decided on logical steps), postconditions on the returned mask, "
+            "bit-exact numpy.random state comparison, reproducibility; numba bounds-check "
+            "sanitizer",
+            "Each generated request (shapes 16-128, accel 1.01-12 incl. unreachable ones, "
+            "calibration blocks, tol, seeds, crop, 5 dtypes, arbitrary prior RNG state) must "
+            "return a binary mask within tol of the acceleration with the calibration block "
+            "full and no sample at normalised radius >= 1, or raise ValueError, within 200 "
+            "kernel calls; the global RNG state must be bit-identical afterwards and a second "
+            "call must give the same mask.",
+            "DESIGN.md section 4, C18"),
+    "C19": ("postcondition / reference-relation monitor on the Cayley-Klein parameters of the "
+            "five real simulators (unitarity, zero-pulse identity, SU(2) composition of split "
+            "waveforms) and round trip b -> b2rf -> hard-pulse simulation -> |B|",
+            "abrm, abrm_nd, abrm_hp, abrm_ptx and optcont.blochsim are run on RF waveforms of "
+            "1-256 samples from 1e-2 rad to > pi per sample with random gradients: "
+            "| |a|^2+|b|^2-1 | <= 1e-12(1+Nt), zero RF gives b = 0 and |a| = 1, and simulating "
+            "two halves and composing their rotations equals simulating the whole (1e-11); "
+            "beta polynomials of every dzrf ptype x ftype and random complex ones (max|B| <= "
+            "0.98) are reproduced by simulating b2rf(b) to 1e-5 at 256 frequencies.",
+            "DESIGN.md section 4, C19"),
+    "C20": ("postcondition monitor on trap_grad / min_trap_grad waveforms (end points, "
+            "amplitude, slew, area) and on spokes_grad (limits over the whole concatenated "
+            "waveform, per-spoke k-space increments, slice-select lobes), with a tracing "
+            "wrapper on the module-global trap_grad",
+            "Log-uniform areas, amplitudes, slew limits and dwell times incl. the "
+            "triangle/trapezoid boundary, integer ramp counts and sub-sample areas; spokes with "
+            "1-6 locations and increments from 1e-3 to 30 cycles/cm; directed cases reproduce "
+            "the known finding C20/spokes-blip-longer-than-subpulse on every run.",
+            "DESIGN.md section 4, C20"),
     "C05": ("reference-model monitor: explicit DFT-matrix oracle on generated shapes/axes/"
             "center/norm/oshape/dtype, plus round-trip, Parseval and dtype postconditions",
             "Every generated configuration is executed through the real fft/ifft (and linop.FFT/"
